@@ -5,6 +5,7 @@ import (
 	"fmt"
 	"net"
 	"sync"
+	"time"
 
 	"github.com/plgd-dev/go-coap/v3/pkg/verifhook"
 	"go.uber.org/atomic"
@@ -127,5 +128,21 @@ func (c *Conn) ReadWithContext(ctx context.Context, buffer []byte) (int, error) 
 	if err := c.handshake(ctx); err != nil {
 		return -1, err
 	}
-	return c.connection.Read(buffer)
+	// The read itself knows nothing of ctx. When ctx ends while the peer is silent - Close of a connection whose
+	// socket belongs to the application cancels it and leaves the socket open - the read is ended by a deadline,
+	// which is taken back at once: the socket is not ours to keep changed.
+	fired := make(chan struct{})
+	stop := context.AfterFunc(ctx, func() {
+		defer close(fired)
+		_ = c.connection.SetReadDeadline(time.Unix(1, 0))
+	})
+	n, err := c.connection.Read(buffer)
+	if !stop() {
+		<-fired
+		_ = c.connection.SetReadDeadline(time.Time{})
+		if err != nil {
+			return -1, ctx.Err()
+		}
+	}
+	return n, err
 }
